@@ -10,7 +10,9 @@ import (
 const RaceEnabled = true
 
 func raceAcquire(p *byte) { runtime.RaceAcquire(unsafe.Pointer(p)) }
-func raceRelease(p *byte) { runtime.RaceRelease(unsafe.Pointer(p)) }
+// merge: several goroutines may park (release) between two acquires of the kernel - a parent at its go statement and the
+// child at its first park - and a plain release would overwrite the earlier one's clock
+func raceRelease(p *byte) { runtime.RaceReleaseMerge(unsafe.Pointer(p)) }
 func raceDisable()        { runtime.RaceDisable() }
 func raceEnable()         { runtime.RaceEnable() }
 
@@ -20,6 +22,9 @@ func RaceErrors() int { return runtime.RaceErrors() }
 // RaceAcquire / RaceRelease let the sync shims publish their edges.
 func RaceAcquire(p unsafe.Pointer) { runtime.RaceAcquire(p) }
 func RaceRelease(p unsafe.Pointer) { runtime.RaceRelease(p) }
+
+// RaceReleaseMerge: a release that keeps the edges of earlier releases on p (several readers unlocking a RWMutex).
+func RaceReleaseMerge(p unsafe.Pointer) { runtime.RaceReleaseMerge(p) }
 
 // RaceWriteRange / RaceReadRange mirror what package syscall does for real
 // reads and writes: the buffer handed to Read is written, the one handed to
